@@ -27,6 +27,7 @@ func c20QueryRowx(db *sqlx.DB, query string, args ...interface{}) *sqlx.Row {
 	return nil
 }
 func c20StructScan(r *sqlx.Row, dest interface{}) error         { return c20Err }
+func c20RowColumnTypes(r *sqlx.Row) ([]*sql.ColumnType, error)  { return nil, c20Err }
 func c20MapScan(r *sqlx.Row, dest map[string]interface{}) error { return c20Err }
 func c20Queryx(db *sqlx.DB, query string, args ...interface{}) (*sqlx.Rows, error) {
 	c20Log = append(c20Log, query)
